@@ -104,7 +104,12 @@ class CurveMachine(object):
                 return
             key = self.sessions()[op[1] % n]
             j = self.first_with_session(key)
-            las.delete_curve(mnemonic=key)
+            if len(op) > 2 and op[2] is not None:
+                # both given: "the index takes precedence over the mnemonic"
+                j = op[2] % n
+                las.delete_curve(mnemonic=key, ix=j)
+            else:
+                las.delete_curve(mnemonic=key)
             del L[j]
         elif kind == "update":
             if n == 0:
@@ -121,6 +126,10 @@ class CurveMachine(object):
                 key = self.sessions()[j]
                 kw["mnemonic"] = key
                 tgt = self.first_with_session(key)
+                if fields.get("also_ix") is not None:
+                    # both given: "the index takes precedence over the mnemonic"
+                    tgt = fields["also_ix"] % n
+                    kw["ix"] = tgt
             if "data" in fields:
                 a = mkarr(fields["data"], self.rows)
                 kw["data"] = a
@@ -311,7 +320,7 @@ def gen_curve_ops(g, n, names, with_set_data=True):
         elif r < 0.52:
             ops.append(["delete_ix", g.randint(-4, 4)])
         elif r < 0.58:
-            ops.append(["delete_mn", g.randrange(8)])
+            ops.append(["delete_mn", g.randrange(8), g.randrange(8) if g.random() < 0.25 else None])
         elif r < 0.7:
             fields = {}
             for f, pool in (("data", None), ("unit", UNITS), ("descr", DESCRS), ("value", VALUES)):
@@ -320,6 +329,8 @@ def gen_curve_ops(g, n, names, with_set_data=True):
             how = g.choice(["ix", "mn"])
             if how == "ix" and g.random() < 0.3:
                 fields["neg"] = 1
+            if how == "mn" and g.random() < 0.25:
+                fields["also_ix"] = g.randrange(8)
             ops.append(["update", how, g.randrange(8), fields])
         elif r < 0.78:
             ops.append(["replace", g.randint(-3, 5), g.choice(names), a, k])
